@@ -11,6 +11,9 @@ mod rng;
 mod runner;
 
 mod c06_layout;
+mod c17_vsock;
+mod c18_vsockconn;
+mod vsock_world;
 
 use proto::RunResult;
 use runner::{Ctx, Tier};
@@ -83,6 +86,8 @@ fn main() {
             // ---- property dispatch: one line per property module ----
             let (cases, rule, exhaustive, extra) = match prop.as_str() {
                 "C06" => c06_layout::run(&ctx),
+                "C17" => c17_vsock::run(&ctx),
+                "C18" => c18_vsockconn::run(&ctx),
                 _ => {
                     eprintln!("unknown property {}", prop);
                     std::process::exit(2)
